@@ -11,6 +11,8 @@
    column numbers are ABSOLUTE.  The code stores pivot rows relative to the start of the sub-range it works on and
    shifts them when it returns (`p += split-start`); the model keeps the absolute row number throughout, the
    reported permutation (start = 0) is the same vector.
+   getrf_block(row_major) copies the panel into column-major storage, runs the column-major kernel and copies back:
+   the same arithmetic, so the model has one kernel (both storage orders are compared by tools/c02.py).
    Arithmetic: the record [ops A] of C02Model.v, plus [fabs] (std::abs) for the pivot search. *)
 From Coq Require Import List Arith Bool.
 From SharkV Require Import C02Model.
